@@ -45,6 +45,8 @@ func main() {
 	subrand := flag.Int("subrand", 150, "random large subtree requests")
 	big := flag.Int("big", 3000, "leaves of the ground-truth histories")
 	probe := flag.Bool("probe", true, "probe the CheckTree non-termination for sizes > 2^62 (last)")
+	noadd := flag.Bool("noadd", false, "skip the add-checkpoint pair/special-case scenarios")
+	nosub := flag.Bool("nosub", false, "skip the sign-subtree scenarios")
 	flag.Parse()
 	out = bufio.NewWriterSize(os.Stdout, 1<<20)
 	defer out.Flush()
@@ -68,12 +70,16 @@ func main() {
 		}
 	}
 
-	g.pairs(int64(*pairs))
-	g.misc()
+	if !*noadd {
+		g.pairs(int64(*pairs))
+		g.misc()
+	}
 	for k := 0; k < *sessions; k++ {
 		g.session(k, *ops)
 	}
-	g.subtrees(int64(*submax), *subrand)
+	if !*nosub {
+		g.subtrees(int64(*submax), *subrand)
+	}
 	if *probe {
 		g.spinProbe()
 	}
